@@ -669,6 +669,52 @@ pub fn s_huge(cx: &mut Ctx) {
             next_orphan += 1;
             low_orphans.push(cx_op!(cx, format!("xor {} {}", vars[a], vars[b])));
         }
+        // small structured functions at low cell indices: triples (f, g, h) with f <= g and ~f <= h,
+        // whose ITE is the constant true without any terminal case applying at the top
+        let mut structured: Vec<usize> = vec![];
+        let mut const_triples: Vec<(usize, usize, usize)> = vec![];
+        {
+            let mut made = 0;
+            'outer: for a in 8..40usize {
+                for b in (a + 1)..40usize {
+                    let p = cx_op!(cx, format!("and {} {}", vars[a], vars[b]));
+                    let q = cx_op!(cx, format!("or {} {}", vars[a], vars[b]));
+                    let np = cx_op!(cx, format!("not {}", p));
+                    let nq = cx_op!(cx, format!("not {}", q));
+                    structured.extend([p, q]);
+                    let mut above = vec![np]; // functions >= ~p
+                    let mut below = vec![];   // functions <= p
+                    for k in 0..8usize {
+                        let c = 8 + (a + b + 5 * k) % 32;
+                        if c != a && c != b {
+                            let r = cx_op!(cx, format!("and {} {}", p, vars[c]));
+                            let nr = cx_op!(cx, format!("not {}", r));
+                            structured.push(r);
+                            above.push(nr);
+                            below.push(r);
+                        }
+                    }
+                    let na = cx_op!(cx, format!("not {}", vars[a]));
+                    let nb = cx_op!(cx, format!("not {}", vars[b]));
+                    // ITE(p, g, h) = 1 when p <= g and ~p <= h
+                    for &g in &[q, vars[a], vars[b]] {
+                        for &h in &above {
+                            const_triples.push((p, g, h));
+                        }
+                    }
+                    // ITE(p, g, h) = 0 when p & g = 0 and ~p & h = 0
+                    for &g in &[nq, na, nb] {
+                        for &h in &below {
+                            const_triples.push((p, g, h));
+                        }
+                    }
+                    made += 1;
+                    if made >= 400 {
+                        break 'outer;
+                    }
+                }
+            }
+        }
         // filler: blocks of 512 nodes, variables 40 down to 9 inside a block, children from the same block
         let mut tops: Vec<usize> = vec![];
         let mut filler: Vec<usize> = vec![];
@@ -756,6 +802,7 @@ pub fn s_huge(cx: &mut Ctx) {
         // more than 2^16 occupied cells in between; then allocations that must find both groups of holes
         let mut roots: Vec<String> = vars.iter().map(|h| h.to_string()).collect();
         roots.extend(filler.iter().map(|h| h.to_string()));
+        roots.extend(structured.iter().map(|h| h.to_string()));
         cx_op!(cx, format!("gc {}", roots.join(" ")));
         lap("gc done");
         cx.op("digest".into());
@@ -772,21 +819,20 @@ pub fn s_huge(cx: &mut Ctx) {
         cx.ex.scan(false);
         lap("holes refilled");
         // (c) constructed hash events over the references that exist here
-        let mut by_idx: HashMap<u64, usize> = HashMap::new();
-        for &h in filler.iter().chain(vars.iter()) {
+        // cell index -> (a handle of that cell, whether the handle is complemented)
+        let mut by_idx: HashMap<u64, (usize, bool)> = HashMap::new();
+        for &h in filler.iter().chain(vars.iter()).chain(structured.iter()) {
             if cx.ex.live[h] {
                 let r = cx.ex.env[h];
-                if !r.is_negated() {
-                    by_idx.insert(r.index() as u64, h);
-                }
+                by_idx.entry(r.index() as u64).or_insert((h, r.is_negated()));
             }
         }
         let maxraw = by_idx.keys().copied().max().unwrap_or(2) * 2 + 1;
         let have = |raw: u64| by_idx.contains_key(&(raw >> 1));
         // the handle of a raw reference (a `not` line when it is complemented)
         let handle_of = |cx: &mut Ctx, raw: u64| -> usize {
-            let h = by_idx[&(raw >> 1)];
-            if raw & 1 == 1 {
+            let (h, neg) = by_idx[&(raw >> 1)];
+            if (raw & 1 == 1) != neg {
                 cx_op!(cx, format!("not {}", h))
             } else {
                 h
@@ -829,10 +875,66 @@ pub fn s_huge(cx: &mut Ctx) {
                 cx_op!(cx, format!("node {} {} {}", 1 + cx.rng.below(8), hlo, hhi));
             }
         }
+        // (d) a triple whose ITE is constant and a hash twin of it that is not, as the two cofactors
+        // of one ite_constant query
+        let mut mixed = 0;
+        'cands: for &(f, g, h) in &const_triples {
+            if mixed >= 3 || !(cx.ex.live[f] && cx.ex.live[g] && cx.ex.live[h]) {
+                continue;
+            }
+            let raw = |cx: &Ctx, x: usize| crate::exec::raw_of(cx.ex.env[x]);
+            let (rf, rg, rh) = (raw(cx, f), raw(cx, g), raw(cx, h));
+            let a = szudzik(rf, rg);
+            if a < rh {
+                continue;
+            }
+            let hash1 = (a as u128) * (a as u128) + a as u128 + rh as u128;
+            if hash1 >> 64 != 0 {
+                continue;
+            }
+            for t in 1u128..=((maxraw as u128 + 1).pow(4) >> 64) {
+                let n = hash1 + (t << 64);
+                // largest a2 with a2*a2 + a2 <= n
+                let mut a2 = ((n as f64).sqrt()) as u128;
+                while a2 * a2 + a2 > n {
+                    a2 -= 1;
+                }
+                while (a2 + 1) * (a2 + 1) + (a2 + 1) <= n {
+                    a2 += 1;
+                }
+                let h2 = n - a2 * a2 - a2;
+                if h2 < 4 || h2 > maxraw as u128 || a2 >= (maxraw as u128 + 1) * (maxraw as u128 + 1) {
+                    continue;
+                }
+                let (f2, g2) = unpair(a2 as u64);
+                let h2 = h2 as u64;
+                if f2 < 4 || g2 < 4 || f2 > maxraw || g2 > maxraw || !have(f2) || !have(g2) || !have(h2) || f2 == g2 {
+                    continue;
+                }
+                if szudzik(szudzik(f2, g2), h2) != szudzik(szudzik(rf, rg), rh) {
+                    continue;
+                }
+                let (hf2, hg2, hh2) = (handle_of(cx, f2), handle_of(cx, g2), handle_of(cx, h2));
+                cx_op!(cx, format!("itec {} {} {}", f, g, h));
+                cx_op!(cx, format!("itec {} {} {}", hf2, hg2, hh2));
+                let ff = cx_op!(cx, format!("node 1 {} {}", hf2, f));
+                let gg = cx_op!(cx, format!("node 1 {} {}", hg2, g));
+                let hh = cx_op!(cx, format!("node 1 {} {}", hh2, h));
+                cx_op!(cx, format!("itec {} {} {}", ff, gg, hh));
+                // the other order: the twin on the x1 = 1 side
+                let ff2 = cx_op!(cx, format!("node 1 {} {}", f, hf2));
+                let gg2 = cx_op!(cx, format!("node 1 {} {}", g, hg2));
+                let hh3 = cx_op!(cx, format!("node 1 {} {}", h, hh2));
+                cx_op!(cx, format!("itec {} {} {}", ff2, gg2, hh3));
+                cx_op!(cx, format!("ite {} {} {}", ff, gg, hh));
+                mixed += 1;
+                continue 'cands;
+            }
+        }
         cx.op("digest".into());
         cx.ex.scan(false);
         lap("carries done");
-        cx.notes.push(format!("case {}: {} filler nodes, {} ITE hash twins, {} carrying keys; largest reference {}", ci, filler.len(), twins_found, carries, maxraw));
+        cx.notes.push(format!("case {}: {} filler nodes, {} ITE hash twins, {} carrying keys, {} constant/non-constant twin queries; largest reference {}", ci, filler.len(), twins_found, carries, mixed, maxraw));
         cx.end();
     }
 }
@@ -1761,6 +1863,48 @@ pub fn s_raw(cx: &mut Ctx, dbg: bool) {
             let start = *cx.ex.case_starts.last().unwrap();
             cx.samples.push(cx.ex.lines[start..].iter().take(10).cloned().collect());
         }
+    }
+    // large tables: more than 2^16 live entries (2^17 and 2^18 slots), hashes with the top bit set
+    // (kind 3), spread over all 64 bits (kind 4), identity (kind 1), descending from 2^64-1 (kind 6)
+    let big_kinds: &[u64] = if cx.thorough { &[3, 4, 1, 6, 3] } else { &[3, 4] };
+    for (bi, &kind) in big_kinds.iter().enumerate() {
+        cx.ex.begin_case();
+        cx_op!(cx, format!("raw.new {} {}", kind, if dbg { 1 } else { 0 }));
+        let nkeys: u64 = if cx.thorough { 70_000 + 40_000 * bi as u64 } else { 70_000 };
+        for k in 0..nkeys {
+            cx_op!(cx, format!("raw.insert {} {}", k, k % 997));
+            if k % 4096 == 4095 {
+                cx.op("raw.len".into());
+                cx_op!(cx, format!("raw.get {}", cx.rng.below(k)));
+            }
+        }
+        cx.op("raw.len".into());
+        for k in (0..nkeys).step_by(3) {
+            cx_op!(cx, format!("raw.get {}", k));
+        }
+        for k in (0..nkeys).step_by(11) {
+            cx_op!(cx, format!("raw.find {}", k));
+        }
+        for k in (0..nkeys).step_by(5) {
+            match k % 3 {
+                0 => cx_op!(cx, format!("raw.remove {}", k)),
+                1 => cx_op!(cx, format!("raw.insert {} {}", k, 5000 + k % 13)), // a present key: the value is replaced
+                _ => {
+                    // an absent key (few of them: with sequential hashes the probe walks the whole run)
+                    if k % 1024 < 5 {
+                        cx_op!(cx, format!("raw.get {}", nkeys + k))
+                    } else {
+                        cx_op!(cx, format!("raw.get {}", k))
+                    }
+                }
+            };
+        }
+        cx.op("raw.len".into());
+        for k in (0..nkeys).step_by(7) {
+            cx_op!(cx, format!("raw.get {}", k));
+        }
+        cx.op("raw.iter".into());
+        cx.op("raw.dump".into());
     }
 }
 
